@@ -828,3 +828,63 @@ V("C25-meta-error-dropped","C25",PU+"distributed.go","""	err = t.submitMetaColle
 	if initial {""","""	_ = t.submitMetaCollection(obj)
 
 	if initial {""",rule="C25.R6")
+
+# ---- C24
+V("C24-replicate-no-content-check","C24",PU+"local.go","""	err := p.fmtValidator.ValidateContent(ctx, &obj)
+	if err != nil {
+		return fmt.Errorf("validate payload content: %w", err)
+	}
+""","""	if obj.Type() != object.TypeRegular {
+		if err := p.fmtValidator.ValidateContent(ctx, &obj); err != nil {
+			return fmt.Errorf("validate payload content: %w", err)
+		}
+	}
+""",rule="C24.R2")
+V("C24-replicate-checksum-skipped-empty","C24",PU+"local.go","""	if !bytes.Equal(h[:], cs.Value()) {
+		return errors.New("payload SHA-256 checksum mismatch")
+	}""","""	if len(payload) > 0 && !bytes.Equal(h[:], cs.Value()) {
+		return errors.New("payload SHA-256 checksum mismatch")
+	}""",rule="C24.R2")
+V("C24-header-forwarded-before-validation","C24",PU+"validation.go","""	if err := t.fmt.Validate(t.ctx, obj, t.unpreparedObject, false); err != nil {
+		return fmt.Errorf("(%T) could not validate object format: %w", t, err)
+	}
+
+	err := t.checkQuotaLimits(obj, t.payloadSz)
+	if err != nil {
+		return err
+	}
+
+	err = t.nextTarget.WriteHeader(obj)
+	if err != nil {
+		return err
+	}
+""","""	err := t.checkQuotaLimits(obj, t.payloadSz)
+	if err != nil {
+		return err
+	}
+
+	err = t.nextTarget.WriteHeader(obj)
+	if err != nil {
+		return err
+	}
+
+	if err := t.fmt.Validate(t.ctx, obj, t.unpreparedObject, false); err != nil {
+		return fmt.Errorf("(%T) could not validate object format: %w", t, err)
+	}
+""",rule="C24.R4")
+V("C24-close-without-checksum","C24",PU+"validation.go","""		if !bytes.Equal(t.hash.Sum(nil), t.checksum) {
+			return oid.ID{}, fmt.Errorf("(%T) incorrect payload checksum", t)
+		}""","""		if t.isECPart && !bytes.Equal(t.hash.Sum(nil), t.checksum) {
+			return oid.ID{}, fmt.Errorf("(%T) incorrect payload checksum", t)
+		}""",rule="C24.R4")
+V("C24-relay-target-unvalidated","C24",PU+"streamer.go","""		p.target = &validatingTarget{
+			l:            p.log,
+			ctx:          p.ctx,
+			nextTarget:   p.newDistrubutedWriter(prm),
+			fmt:          p.fmtValidator,""","""		p.target = &validatingTarget{
+			l:            p.log,
+			ctx:          p.ctx,
+			nextTarget:   p.newDistrubutedWriter(prm),""",rule="C24.R3",expect="fire")
+V("C24-auth-skipped-for-split","C24","pkg/core/object/fmt.go","""		if !isEC {
+			if err := icrypto.AuthenticateObject(""","""		if !isEC && !firstSet {
+			if err := icrypto.AuthenticateObject(""",rule="C24.R5")
